@@ -87,7 +87,7 @@ inductive Micro where
 
 def microStep (R : Rules) (s : Sys) : Micro → Sys
   | .env w => envStep1With R.combine s w
-  | .cmd i => cmdStep1With R.emptyWake s i
+  | .cmd i => cmdStep1With R s i
   | .exec i fuel ordQ => execStep s i fuel ordQ
   | .check i ordE => checkStep s i ordE
   | .tick ms => { s with now := s.now + ms }
@@ -271,11 +271,12 @@ def Rules.Tame (R : Rules) : Prop := ∀ w p, SameProcs w (R.emptyWake w p)
 theorem Rules.current_tame : Rules.current.Tame := fun w p => SameProcs.wakeSelecting w p
 theorem Rules.replaceAnswers_tame : Rules.replaceAnswers.Tame := fun w p => SameProcs.wakeSelecting w p
 theorem Rules.markActiveOnEmpty_tame : Rules.markActiveOnEmpty.Tame := fun w p => SameProcs.markActive w p
+theorem Rules.wakeOnlyOnEmptyAnswer_tame : Rules.wakeOnlyOnEmptyAnswer.Tame := fun w p => SameProcs.wakeSelecting w p
 
 theorem RInv.micro {R : Rules} (hR : R.Tame) {s : Sys} (h : RInv s) (m : Micro) : RInv (microStep R s m) := by
   cases m with
   | env w => exact h.envStep1 R.combine w
-  | cmd i => exact h.cmdStep1 R.emptyWake hR i
+  | cmd i => exact h.cmdStep1 R hR i
   | exec i fuel ordQ => exact h.execStep i fuel ordQ
   | check i ordE => exact h.checkStep i ordE
   | tick ms => exact { h with }
